@@ -8,29 +8,45 @@ open Comdex
 theorem toGoInt_small (x : Nat) (h : x < 2 ^ 63) : toGoInt x = (x : Int) := by
   unfold toGoInt; rw [if_pos h]
 
-theorem sliceBoundsI_bounds (len off batch : Int) (hl : 0 ≤ len) :
+theorem wrapInt_eq {x : Int} (h1 : -9223372036854775808 ≤ x) (h2 : x < 9223372036854775808) : wrapInt x = x := by
+  unfold wrapInt; omega
+
+/-- without the int64 wrap of `off + batch` the function is the ideal one -/
+theorem sliceBoundsI_nowrap (len off batch : Int) (hw : off + batch < 9223372036854775808) :
+    sliceBoundsI len off batch =
+      if off ≥ len ∨ off < 0 ∨ batch < 0 then (len, len)
+      else if off + batch ≥ len then (off, len) else (off, off + batch) := by
+  unfold sliceBoundsI
+  by_cases h : off ≥ len ∨ off < 0 ∨ batch < 0
+  · rw [if_pos h, if_pos h]
+  · rw [if_neg h, if_neg h, wrapInt_eq (by omega) hw]
+
+theorem sliceBoundsI_bounds (len off batch : Int) (hl : 0 ≤ len) (hw : off + batch < 9223372036854775808) :
     0 ≤ (sliceBoundsI len off batch).1 ∧ (sliceBoundsI len off batch).1 ≤ (sliceBoundsI len off batch).2 ∧
     (sliceBoundsI len off batch).2 ≤ len := by
-  unfold sliceBoundsI
+  rw [sliceBoundsI_nowrap len off batch hw]
   split
   · simp; omega
   · split
     · simp; omega
     · simp; omega
 
-theorem sweepBoundsI_bounds (cnt off batch : Int) (hl : 0 ≤ cnt) :
+theorem sweepBoundsI_bounds (cnt off batch : Int) (hl : 0 ≤ cnt) (hb : batch < 9223372036854775808)
+    (hw : off + batch < 9223372036854775808) :
     0 ≤ (sweepBoundsI cnt off batch).1 ∧ (sweepBoundsI cnt off batch).1 ≤ (sweepBoundsI cnt off batch).2 ∧
     (sweepBoundsI cnt off batch).2 ≤ cnt := by
   unfold sweepBoundsI
   simp only
   split
-  · exact sliceBoundsI_bounds cnt 0 batch hl
-  · exact sliceBoundsI_bounds cnt off batch hl
+  · exact sliceBoundsI_bounds cnt 0 batch hl (by omega)
+  · exact sliceBoundsI_bounds cnt off batch hl hw
 
 /-- closed form of the end of a sweep's range for non-negative arguments -/
-theorem sweepBoundsI_end (cnt off batch : Int) (hc : 0 ≤ cnt) (ho : 0 ≤ off) (hb : 0 < batch) :
+theorem sweepBoundsI_end (cnt off batch : Int) (hc : 0 ≤ cnt) (ho : 0 ≤ off) (hb : 0 < batch)
+    (hw : off + batch < 9223372036854775808) :
     (sweepBoundsI cnt off batch).2 = if off < cnt then min (off + batch) cnt else min batch cnt := by
-  unfold sweepBoundsI sliceBoundsI
+  unfold sweepBoundsI
+  rw [sliceBoundsI_nowrap cnt off batch hw, sliceBoundsI_nowrap cnt 0 batch (by omega)]
   simp only
   by_cases h1 : off < cnt
   · rw [if_pos h1]
@@ -56,9 +72,10 @@ theorem sweepBoundsI_end (cnt off batch : Int) (hc : 0 ≤ cnt) (ho : 0 ≤ off)
       · rw [if_pos h5]; omega
       · rw [if_neg h5]; omega
 
-theorem sliceBounds_cast (len off batch : Nat) :
+theorem sliceBounds_cast (len off batch : Nat) (hw : (off : Int) + batch < 9223372036854775808) :
     sliceBoundsI len off batch = (((sliceBounds len off batch).1 : Int), ((sliceBounds len off batch).2 : Int)) := by
-  unfold sliceBoundsI sliceBounds
+  rw [sliceBoundsI_nowrap _ _ _ hw]
+  unfold sliceBounds
   by_cases h1 : off ≥ len
   · have : ((off:Int) ≥ len ∨ (off:Int) < 0 ∨ (batch:Int) < 0) := by omega
     rw [if_pos this, if_pos h1]
@@ -70,12 +87,12 @@ theorem sliceBounds_cast (len off batch : Nat) :
     · have : ¬ ((off:Int) + batch ≥ len) := by omega
       rw [if_neg this, if_neg h2]; simp
 
-theorem sweepBounds_cast (cnt off batch : Nat) :
+theorem sweepBounds_cast (cnt off batch : Nat) (hw : (off : Int) + batch < 9223372036854775808) :
     sweepBoundsI cnt off batch = (((sweepBounds cnt off batch).1 : Int), ((sweepBounds cnt off batch).2 : Int)) := by
   unfold sweepBoundsI sweepBounds
   simp only
-  rw [sliceBounds_cast cnt off batch]
-  have h0 := sliceBounds_cast cnt 0 batch
+  rw [sliceBounds_cast cnt off batch hw]
+  have h0 := sliceBounds_cast cnt 0 batch (by omega)
   by_cases h : (sliceBounds cnt off batch).1 = (sliceBounds cnt off batch).2
   · have h' : ((sliceBounds cnt off batch).1 : Int) = ((sliceBounds cnt off batch).2 : Int) := by omega
     rw [if_pos h', if_pos h]
@@ -711,10 +728,11 @@ theorem vaultPass_none_iff (batch key off : Nat) (f : Vault → World → Option
   · rename_i h; simp [h]
   · rename_i sl h; simp [h]
 
-theorem goSlice_none_iff {α} (l : List α) (cnt off batch : Int) (hc : 0 ≤ cnt) :
+theorem goSlice_none_iff {α} (l : List α) (cnt off batch : Int) (hc : 0 ≤ cnt) (hb' : batch < 9223372036854775808)
+    (hw : off + batch < 9223372036854775808) :
     goSlice l (sweepBoundsI cnt off batch).1 (sweepBoundsI cnt off batch).2 = none ↔
       (l.length : Int) < (sweepBoundsI cnt off batch).2 := by
-  have hb := sweepBoundsI_bounds cnt off batch hc
+  have hb := sweepBoundsI_bounds cnt off batch hc hb' hw
   unfold goSlice
   constructor
   · intro h
